@@ -343,7 +343,7 @@ def run(ctx):
     # the emergency shutdown is sent by the insurance fund, which is not the vAMM's owner: the vAMM's SetOpen must have
     # a success path for a sender that is its configured insurance fund and NOT its owner (an `&&` where the role test
     # needs `||` would demand both roles at once and every shutdown would be refused)
-    ctx.rule("R14.6", "the vAMM accepts SetOpen from its configured insurance fund alone (a success alternative with owner test false and sender == config.insurance_fund)", 1)
+    ctx.rule("R14.6", "the vAMM accepts SetOpen from its configured insurance fund alone (a success alternative with owner test false and sender == config.insurance_fund); the fund's owner alone may trigger ShutdownVamms", 2)
     try:
         so6 = arms.Arm(ix, VAMM, "SetOpen")
         found = False
@@ -366,5 +366,32 @@ def run(ctx):
         ctx.inst("R14.6", "fund-alone-may-close:SetOpen", found, so6.fn.where(),
                  "%d success alternatives; %s" % (n_alt, "one of them has the owner test false and info.sender == config.insurance_fund" if found else
                     "NONE succeeds for a sender that is the insurance fund but not the owner: ShutdownVamms would always be refused"))
+    except KeyError as e:
+        ctx.lost("R14.6", str(e))
+
+    # the owner alone can trigger the shutdown (the tabled role is owner OR the fund itself - not both at once)
+    try:
+        sh6 = arms.Arm(ix, IF, "ShutdownVamms")
+        found_o = False
+        n_alt = 0
+        self_addr = sh6.self_addr
+        for (q, alt) in sh6.alternatives():
+            n_alt += 1
+            admin_true = any(o is True and (("is_admin" in sym.show(at, 3)) or ("assert_admin" in sym.show(at, 3)) or tag(at) == "happened") for (at, o) in alt)
+            self_required = False
+            for (at, o) in alt:
+                a2, o2 = at, o
+                while tag(a2) == "op" and payload(a2)[0] == "not" and o2 in (True, False):
+                    a2, o2 = kids(a2)[0], (not o2)
+                if tag(a2) == "op" and payload(a2)[0] in ("eq", "ne") and len(kids(a2)) == 2:
+                    is_eq = (payload(a2)[0] == "eq") == bool(o2)
+                    ks = [ix.inline(k) for k in kids(a2)]
+                    if is_eq and sh6.sender in ks and self_addr in ks:
+                        self_required = True
+            if admin_true and not self_required:
+                found_o = True
+        ctx.inst("R14.6", "owner-alone-may-shut-down:ShutdownVamms", found_o, sh6.fn.where(),
+                 "%d success alternatives; %s" % (n_alt, "one of them needs the owner test only" if found_o else
+                    "NONE succeeds for the owner unless the sender is also the fund itself: nobody can trigger the shutdown"))
     except KeyError as e:
         ctx.lost("R14.6", str(e))
